@@ -94,9 +94,9 @@ def parse_event(typ: str, text: str) -> t.Dict[str, t.Any]:
 
 
 # ---- generator ----------------------------------------------------------------------------------------------------
-def _cfg(path: str, typ: str, weight: int, spacing: int, quoted: bool = True, nstr: int = 17) -> None:
+def _cfg(path: str, typ: str, weight: int, spacing: int, quoted: bool = True, nstr: int = 19) -> None:
     with open(path, "w") as f:
-        f.write(f'CONSTANTS\n  Type = "{typ}"\n  NStr = {nstr}\n  NOid = 9\n  MaxList = 3\n  MaxExt = 3\n  MaxExtVals = 3\n  Spacing = {spacing}\n  MaxWeight = {weight}\n'
+        f.write(f'CONSTANTS\n  Type = "{typ}"\n  NStr = {nstr}\n  NOid = 10\n  MaxList = 3\n  MaxExt = 3\n  MaxExtVals = 3\n  Spacing = {spacing}\n  MaxWeight = {weight}\n'
                 f"  Quoted = {'TRUE' if quoted and typ == 'at' else 'FALSE'}\n  MaxChoices = 400\nSPECIFICATION Spec\nCHECK_DEADLOCK FALSE\nINVARIANT ParseOfUnparse\n")
 
 
@@ -139,7 +139,8 @@ def validate(rep: C.Report, wd: str, events: t.List[t.Any], label: str) -> None:
 
 # ---- random definitions (C16) ---------------------------------------------------------------------------------------
 def r_numoid(rnd: random.Random) -> str:
-    return ".".join(str(rnd.choice((0, 1, 2, 9, 10, 113556, 2342))) if j else str(rnd.randrange(0, 3)) for j in range(rnd.randrange(2, 8)))
+    return ".".join(str(rnd.choice((0, 1, 2, 9, 10, 113556, 2342, 2**31, 2**64, 329800735698586629295641978511506172918, 10**60 + 7))) if j else str(rnd.randrange(0, 3))
+                    for j in range(rnd.choice((2, 3, 4, 5, 7, 7, 40))))
 
 
 def r_descr(rnd: random.Random) -> str:
@@ -154,7 +155,9 @@ def r_str(rnd: random.Random) -> str:
     n = rnd.choice((1, 1, 2, 3, 5, 9, 30))
     k = rnd.randrange(4)
     if k == 0:
-        return "".join(rnd.choice("'\\|()$ {}Xa\n\u00e9\u2028\U0001f60027 5cC") for _ in range(n))
+        return "".join(rnd.choice("'\\|()$ {}Xa\n\r\t\x0b\x0c\x1c\x85\u00e9\u2028\U0001f60027 5cC") for _ in range(n))
+    if k == 2 and n > 2:   # line-boundary characters followed by a space (what an LDIF unfolder / splitlines would touch)
+        return "see" + rnd.choice(("\n ", "\r\n ", "\n\t", "\r ", "\x85 ", "\u2028 ", "\n  ", " \n")) + "RFC" + "".join(msggen.r_char(rnd) for _ in range(n - 2))
     if k == 1:
         return rnd.choice(("\\27", "\\5c", "\\5C", "C:\\27", "\\\\27", "'\\''", "a\\5c5C", "\\5c27")) + "".join(msggen.r_char(rnd) for _ in range(n - 1))
     return "".join(msggen.r_char(rnd) for _ in range(n))
@@ -169,10 +172,12 @@ def r_def(rnd: random.Random) -> t.Dict[str, t.Any]:
     used = set()
     for _ in range(rnd.choice((0, 0, 1, 2, 3))):
         nm = "".join(rnd.choice("ABCabc-_") for _ in range(rnd.randrange(1, 8)))
+        if rnd.random() < 0.15:   # a name that itself begins like the prefix (the sentence reads X-X-..), or is very long
+            nm = rnd.choice(("X-", "x-", "X-X-", "X")) + nm if rnd.random() < 0.7 else nm * 40
         if nm in used:
             continue
         used.add(nm)
-        ext.append({"name": cps(nm), "vals": [cps(r_str(rnd)) for _ in range(rnd.choice((1, 1, 2, 3)))]})
+        ext.append({"name": cps(nm), "vals": [cps(r_str(rnd)) for _ in range(rnd.choice((0, 1, 1, 2, 3, 3, 40)))]})
     base = {"type": typ, "oid": cps(r_numoid(rnd)), "names": names, "hasDesc": hasd, "desc": cps(r_str(rnd)) if hasd else [], "obsolete": rnd.random() < 0.3, "ext": ext}
     if typ == "oc":
         return {**base, "sup": ol(), "kind": rnd.choice(("ABSTRACT", "STRUCTURAL", "AUXILIARY")), "must": ol(), "may": ol()}
